@@ -140,7 +140,13 @@ class OptCase:
                 opt.fit(Bc)
             r = np.array(opt.get_sensors()).tolist()
             res["ranking"] = r
-            if tap.unavailable or len(tap.steps) != k:
+            protocol_ok = (not tap.unavailable) and len(tap.steps) == k and all(len(s[0]) == n - j for j, s in enumerate(tap.steps))
+            if protocol_ok and gen.is_perm(r, n):
+                # the tapped offsets must also be the ones that produce the returned ranking (a refactoring that pivots on a reduced
+                # set of columns keeps the call protocol but not its meaning: the trace is then read off the ranking itself)
+                offs_r, _ = gen.offsets_from_ranking(r, n, k)
+                protocol_ok = offs_r == [s[1] for s in tap.steps]
+            if not protocol_ok:
                 res["tap_unavailable"] = True
                 if gen.is_perm(r, n):
                     res["offsets"], _ = gen.offsets_from_ranking(r, n, k)
